@@ -239,6 +239,22 @@ def cases(depth, expr_depth, part=0, parts=1):
                           ('array_length_cast', 'int bad[ord(3) is int];'), ('array_length_arithmetic', 'int bad[ord(3) + 1];'), ('logic', 'bool bad = true and (ord(1) is bool);'),
                           ('cast_chain', 'int bad = (ord(1) is byte) is int;'), ('literal_item_cast', 'byte[] bad = [ord(65) is byte];')):
             yield f'global/wrapped_call/{tag}', pre + decl + '\nempty @is_you() { }\n', False, 'globals are initialised without calls'
+        # handlers (like else) take any block statement (if / while / for / try), not only a braced block
+        dd = 'empty !want(int a, int b) { !truth_is_defeat(a != b); }\n'
+        for tag, body in (('undo_try_chain', 'try { !want(n, 1); write(1); } undo try { !want(n, 2); write(2); } undo { write(3); }'),
+                          ('stop_if', 'try { !want(n, 1); } stop if (n == 2) { write(2); }'), ('undo_if_else', 'try { !want(n, 1); } undo if (n == 2) { write(2); } else { write(3); }'),
+                          ('undo_while', 'try { !want(n, 1); } undo while (n > 5) { n -= 1; }'), ('stop_for', 'try { !want(n, 1); } stop for (int i = 0; i < 2; i += 1) { write(i); }'),
+                          ('stop_try_stop', 'try { !want(n, 1); } stop try { !want(n, 2); } stop { write(4); }'),
+                          ('undo_block_in_loop', 'for (int i = 0; i < 3; i += 1) { try { !want(i, n); } undo if (i == 2) { break; } }')):
+            yield f'global/unbraced_handler/{tag}', HELPERS + dd + 'empty @is_you(int n) { ' + body + ' }\n', True, ''
+        for tag, body in (('undo_preempt', 'try { !want(n, 1); } undo preempt { write(1); }'), ('stop_if_defeat_call', 'try { !want(n, 1); } stop if (n > 1) { !want(n, 2); }'),
+                          ('undo_if_break_outside_loop', 'try { !want(n, 1); } undo if (n > 1) { break; }')):
+            yield f'global/unbraced_handler/{tag}', HELPERS + dd + 'empty @is_you(int n) { ' + body + ' }\n', False, 'handler context'
+        # a flavoured name that is not called is not an expression, wherever it stands (also in statements that are never reached)
+        for tag, body in (('you_name_statement', 'write(1); return; @you;'), ('you_name_argument', 'write(ord(@you));'), ('defeat_name_in_try', 'try { !dft; } undo { }'),
+                          ('you_name_assigned', 'int q = @you;'), ('you_name_after_infinite_loop', 'while (true) { } @you;'), ('defeat_name_statement', 'return; !dft;'),
+                          ('you_name_indexed', 'write(arr[@you]);'), ('you_name_in_condition', 'if (@you) { }')):
+            yield f'global/bare_flavoured_name/{tag}', HELPERS + 'empty @is_you(int n) { ' + body + ' }\n', False, 'a flavoured identifier can only be called'
         # the flavour is part of a function's name: namesakes of different flavour (also of builtins) are distinct functions
         yield ('global/namesakes/three_flavours', 'int f(int k) { return k; }\nint !f(int k) { !truth_is_defeat(k == 1); return k + 1; }\nint @f(int k) { return k + 2; }\n'
                'empty @is_you(int n) { write(f(n)); write(@f(n)); try { write(!f(n)); } undo { } }\n', True, '')
